@@ -35,20 +35,14 @@ func boundaryYears() []int {
 	add(2999, 3001)
 	add(9990, 9998)
 	// Julian-only leap days (century years that are leap in the Julian calendar but not in the proleptic Gregorian one)
-	for _, y := range []int{100, 200, 300, 500, 600, 700, 900, 1000, 1100, 1300, 1400, 1500} {
-		ys = append(ys, y)
-	}
+	ys = append(ys, 100, 200, 300, 500, 600, 700, 900, 1000, 1100, 1300, 1400, 1500)
 	// the years after those (their first days are counted from the previous, Julian-only leap, year)
-	for _, y := range []int{101, 201, 301, 501, 601, 701, 901, 1001, 1101, 1301, 1401, 1501} {
-		ys = append(ys, y)
-	}
+	ys = append(ys, 101, 201, 301, 501, 601, 701, 901, 1001, 1101, 1301, 1401, 1501)
 	// years with a solar term within two seconds of local midnight (found by scanning all 9 998 tables of the
 	// unchanged library; tools/near_midnight_terms.go re-derives the list)
 	ys = append(ys, 32, 699, 1951, 3167, 3186, 3255, 3439, 3824, 4886, 5014, 6167, 8502)
 	// years with (or right after) a leap 11th / 12th month, on both sides of the 1575..3357 stretch that has no leap 12
-	for _, y := range []int{37, 38, 75, 76, 1574, 1575, 1576, 2128, 2129, 3358, 3359} {
-		ys = append(ys, y)
-	}
+	ys = append(ys, 37, 38, 75, 76, 1574, 1575, 1576, 2128, 2129, 3358, 3359)
 	return ys
 }
 
